@@ -40,3 +40,4 @@ OBLIGATIONS += [
   O('C18.b-pae-portable', 'c18_portable.cpp', 'harness_pae_portable', replace=MUL, backend=['cvc5int', 'z3'], timeout=600, tiers='x',
     bound='all int64 except INT64_MIN', desc='portable branch of ProductsAreEqual exact'),
 ]
+OBLIGATIONS.append(O('C18.e-area-no-overflow', 'c18_segpt.cpp', 'harness_area_no_overflow_40', nsw=True, unwind=6, timeout=300, bound='4 vertices with |coordinates| <= 2^40', desc='Area / IsPositive do no signed 64-bit arithmetic that can overflow (every nsw instruction of the real code asserted); the value itself is covered only by the parked shoelace obligation'))
